@@ -26,6 +26,7 @@ class GCase:
         self.note = note
         self.canary_spec = None       # a deliberately wrong contract (must be refuted)
         self.fix = None               # precondition on drawn inputs (witness search, cross-check): fix(tensors, sizes, rnd)
+        self.pre = None               # precondition on sizes: callable run at the start of every path (G.require_at_least ...)
 
 
 def cbuild(shape, f):
@@ -66,6 +67,8 @@ def run_cases(ctx, cases, prefix, canary=None, only=None):
                 bad_paths.append((list(vc.pc), str(e)[:200]))
 
         def body(case):
+            if case.pre is not None:
+                case.pre()
             ins = {}
             for n, shape, dom in case.inputs:
                 ins[n] = G.inp(n, shape, frozen=n not in case.mutates, domain=dom)
@@ -217,6 +220,8 @@ def _probe(ctx, case, pc):
     vc2.probe = True
 
     def run():
+        if case.pre is not None:
+            case.pre()
         ins = {}
         for n, shape, dom in case.inputs:
             ins[n] = G.inp(n, shape, frozen=False, domain=dom)
